@@ -297,6 +297,8 @@ func (h *H) exec(w http.ResponseWriter, r *http.Request, o *Outcome) {
 				w.WriteHeader(a.Code)
 			case "write":
 				w.Write([]byte(strings.Repeat("b", a.N)))
+			case "panic":
+				panic("script panic " + a.V)
 			}
 		}
 	}
